@@ -58,3 +58,23 @@ let () =
   register "walk" (fun a -> match a with
     | [bs] -> String.concat "," (List.map (fun ((m, sz), d) -> hex_of_n m ^ ":" ^ hex_of_n sz ^ ":" ^ string_of_int (List.length d)) (walk_all (bytes_of_hex bs)))
     | _ -> "ERR args")
+
+(* C13-C15: offset tables over chunked files, decided by the proved checker *)
+let () =
+  (* tablecheck <file hex> <origin> <magic:rel ,> -> 1|0 *)
+  register "tablecheck" (fun a -> match a with
+    | [f; origin; tab] ->
+      let t = if tab = "-" then [] else List.map (fun e -> match String.split_on_char ':' e with
+        | [m; r] -> (n_of_hex m, n_of_hex r) | _ -> failwith "tab") (String.split_on_char ',' tab) in
+      if table_ok (bytes_of_hex f) (n_of_hex origin) t then "1" else "0"
+    | _ -> "ERR args");
+  (* framing <file hex> -> magic:offset:declared ,... TILES=<1|0 every chunk complete and the walk ends at the end of the file> *)
+  register "framing" (fun a -> match a with
+    | [f] ->
+      let bs = bytes_of_hex f in
+      let w = walk_all bs in
+      let off = ref 0 in
+      let items = List.map (fun ((m, sz), d) -> let o = !off in off := o + 8 + List.length d; hex_of_n m ^ ":" ^ Printf.sprintf "%x" o ^ ":" ^ hex_of_n sz) w in
+      let complete = List.for_all (fun ((_, sz), d) -> int_of_n sz = List.length d) w in
+      String.concat "," items ^ " TILES=" ^ (if complete && !off = List.length bs then "1" else "0")
+    | _ -> "ERR args")
